@@ -285,16 +285,21 @@ def run(tier, replay):
     # 3. instruction-level conformance of the values: the real register file before every instruction of a sample of
     #    the runs, validated in lock step against VM.tla (evidence about the model's fidelity; reported, never an alarm of C15)
     import vmtrace
-    nvm = 120 if tier == "quick" else 1500
+    nvm = int(os.environ.get("VERIF_NVM", "0")) or (150 if tier == "quick" else 2000)
     dyn_ids = {r["id"] for r in dyn}
     ran = [p for p in progs if p["id"] in dyn_ids]
     samp = ran[:: max(1, len(ran) // nvm)][:nvm] if not replay else ran
     vresps = pool.map([{"op": "run", "text": p["text"], "igen": True, "trace": True, "regs": True, "budget": 1500, "stdin": "1\r\n2\r\n",
                         "dir": os.path.join(fsroot, "v%d" % i)} for i, p in enumerate(samp)], timeout=60)
     shutil.rmtree(fsroot, ignore_errors=True)
-    vruns = [{"id": p["id"], "insns": r["igen"]["insns"], "trace": r.get("trace") or [], "errors": r.get("errors") or []}
+    vruns = [{"id": p["id"], "insns": r["igen"]["insns"], "trace": r.get("trace") or [], "error_steps": r.get("error_steps") or []}
              for p, r in zip(samp, vresps) if r and "igen" in r and "panic" not in r]
     vm = vmtrace.validate("C15", vruns) if vruns else {}
+    texts_by_id = {p["id"]: p for p in samp}
+    for dr in vm.get("drift", []):
+        if dr["id"] in texts_by_id:
+            dr["source"] = texts_by_id[dr["id"]]["src"]
+            dr["text"] = texts_by_id[dr["id"]]["text"][:1500]
     srccount = {}
     for p in progs:
         k = p["src"].split(":")[0]
